@@ -147,6 +147,9 @@ class _Canon(ast.NodeTransformer):
                 and isinstance(n.test.operand.op, ast.Not):
             n.test = n.test.operand.operand
             self.stats['canon_not_not'] = self.stats.get('canon_not_not', 0) + 1
+        # else: pass   ->   (no else)
+        if n.orelse and all(isinstance(x, ast.Pass) for x in n.orelse) and not all(isinstance(x, ast.Pass) for x in n.body):
+            n.orelse = []
         # if c: pass else: B   ->   if not c: B
         if n.orelse and all(isinstance(x, ast.Pass) for x in n.body):
             if isinstance(n.test, ast.UnaryOp) and isinstance(n.test.op, ast.Not):
@@ -779,7 +782,21 @@ class Inliner(object):
         body = _doc_stripped(helper.body)
         if len(body) == 1 and isinstance(body[0], ast.Return) and body[0].value is not None:
             return body[0].value
-        return None
+        # `if c: return X` ... `return Y`  is the conditional expression  X if c else Y  (same order, same laziness)
+
+        def chain(stmts):
+            if not stmts:
+                return None
+            s0 = stmts[0]
+            if isinstance(s0, ast.Return) and s0.value is not None and len(stmts) == 1:
+                return s0.value
+            if isinstance(s0, ast.If) and len(s0.body) == 1 and isinstance(s0.body[0], ast.Return) and s0.body[0].value is not None:
+                rest = chain(s0.orelse) if s0.orelse and len(stmts) == 1 else (chain(stmts[1:]) if not s0.orelse else None)
+                if rest is None:
+                    return None
+                return ast.copy_location(ast.IfExp(test=s0.test, body=s0.body[0].value, orelse=rest), s0)
+            return None
+        return chain(body)
 
     def run(self, fn):
         """expand helper calls inside fn (in place); returns number of expansions"""
@@ -1252,6 +1269,220 @@ def resolve_name_dispatch(tree, cls, fn, stats):
     ast.fix_missing_locations(fn)
 
 
+def _tails(stmts):
+    """the last statements of every way through a statement list that ends in (nested) if/else: [(list, index)] or None
+    when some way does not end in a plain statement of this list (loops, try, empty else ...)"""
+    if not stmts:
+        return None
+    last = stmts[-1]
+    if isinstance(last, ast.If):
+        if not last.orelse:
+            return None
+        a, b = _tails(last.body), _tails(last.orelse)
+        if a is None or b is None:
+            return None
+        return a + b
+    if isinstance(last, (ast.For, ast.While, ast.Try, ast.With, ast.Return, ast.Raise, ast.Break, ast.Continue)):
+        return None
+    return [(stmts, len(stmts) - 1)]
+
+
+def thread_flags(fn, stats):
+    """N9 (jump threading on constant flags):
+
+        if c: A; r = K1                      if c: A; <S with r := K1, if TEST(K1)>
+        else: B; r = K2            ==>       else: B; <S with r := K2, if TEST(K2)>
+        if TEST(r): S [else: T]
+
+    where every way through the first statement ends by binding the local r to a constant, r is read nowhere but in
+    the second statement, and TEST is decided by the constant.  This is what is left when a helper that reports and
+    returns True/False has been inlined; threading puts the consequence (`valid = False`, `return False`) back next to
+    the report it belongs to, so that path rules see the correlation."""
+    changed = True
+    rounds = 0
+    while changed and rounds < 50:
+        changed = False
+        rounds += 1
+        for owner in ast.walk(fn):
+            for field in ('body', 'orelse', 'finalbody'):
+                blk = getattr(owner, field, None)
+                if not isinstance(blk, list) or len(blk) < 2 or not isinstance(blk[0], ast.stmt):
+                    continue
+                for i in range(len(blk) - 1):
+                    s1, s2 = blk[i], blk[i + 1]
+                    fwd = None
+                    if isinstance(s2, ast.Assign) and len(s2.targets) == 1 and isinstance(s2.targets[0], ast.Name) and isinstance(s2.value, ast.Name) \
+                            and isinstance(s1, ast.If):
+                        fwd, r = ('=', s2.targets[0].id), s2.value.id
+                    elif isinstance(s2, ast.AugAssign) and isinstance(s2.op, ast.BitAnd) and isinstance(s2.target, ast.Name) and isinstance(s2.value, ast.Name) \
+                            and isinstance(s1, ast.If):
+                        fwd, r = ('&=', s2.target.id), s2.value.id
+                    elif isinstance(s2, ast.If):
+                        names = {x.id for x in ast.walk(s2.test) if isinstance(x, ast.Name)}
+                        if len(names) != 1:
+                            continue
+                        r = next(iter(names))
+                    else:
+                        continue
+                    if fwd is not None and fwd[1] == r:
+                        continue
+                    if isinstance(s1, ast.If):
+                        tails = _tails([s1])
+                    elif isinstance(s1, ast.Assign):
+                        tails = [(blk, i)]
+                    else:
+                        continue
+                    if not tails:
+                        continue
+                    consts = []
+                    for lst, k in tails:
+                        st = lst[k]
+                        if isinstance(st, ast.Assign) and len(st.targets) == 1 and isinstance(st.targets[0], ast.Name) and st.targets[0].id == r \
+                                and isinstance(st.value, ast.Constant):
+                            consts.append(st.value.value)
+                        else:
+                            consts = None
+                            break
+                    if consts is None:
+                        continue
+                    # r is read only inside s2, stored only at the tails
+                    n_load = sum(1 for x in ast.walk(fn) if isinstance(x, ast.Name) and x.id == r and isinstance(x.ctx, ast.Load))
+                    n_load2 = sum(1 for x in ast.walk(s2) if isinstance(x, ast.Name) and x.id == r and isinstance(x.ctx, ast.Load))
+                    n_store = sum(1 for x in ast.walk(fn) if isinstance(x, ast.Name) and x.id == r and isinstance(x.ctx, (ast.Store, ast.Del)))
+                    if n_load != n_load2 or n_store != len(tails):
+                        continue
+                    if any(isinstance(x, ast.Name) and x.id == r and isinstance(x.ctx, ast.Store) for x in ast.walk(s2)):
+                        continue
+                    if isinstance(s1, ast.Assign) and len(tails) == 1 and tails[0][0] is blk:
+                        pass
+                    if fwd is not None:
+                        if fwd[0] == '&=' and not all(isinstance(c, bool) for c in consts):
+                            continue
+                        if any(isinstance(x, ast.Name) and x.id == fwd[1] for x in ast.walk(s1)):
+                            continue
+                        for (lst, k), c in zip(tails, consts):
+                            if fwd[0] == '=' or c is False:
+                                new_st = ast.Assign(targets=[ast.Name(id=fwd[1], ctx=ast.Store())], value=ast.Constant(value=c))
+                            else:
+                                new_st = ast.Pass()
+                            lst[k] = ast.copy_location(new_st, lst[k])
+                        blk.remove(s2)
+                        stats['flags_threaded'] = stats.get('flags_threaded', 0) + 1
+                        changed = True
+                        break
+                    from . import astutil as _A
+                    decided = []
+                    try:
+                        for c in consts:
+                            decided.append(bool(_A.ev(s2.test, {r: c})))
+                    except Exception:
+                        continue
+
+                    def subst(stmts, c):
+                        class R(ast.NodeTransformer):
+                            def visit_Name(self, n):
+                                if n.id == r and isinstance(n.ctx, ast.Load):
+                                    return ast.copy_location(ast.Constant(value=c), n)
+                                return n
+                        return [R().visit(x) for x in clone(stmts)]
+                    for (lst, k), c, d in zip(tails, consts, decided):
+                        repl = subst(s2.body if d else s2.orelse, c)
+                        lst[k:k + 1] = repl if repl or len(lst) > 1 else [ast.copy_location(ast.Pass(), lst[k])]
+                    blk.remove(s2)
+                    stats['flags_threaded'] = stats.get('flags_threaded', 0) + 1
+                    changed = True
+                    break
+                if changed:
+                    break
+            if changed:
+                break
+    if rounds > 1:
+        ast.fix_missing_locations(fn)
+
+
+def merge_accumulators(fn, stats):
+    """N10: a boolean accumulator local to an inlined helper,
+
+        a = True ; ... a &= E ... a = False ... ; v &= a        (or  v = a)
+
+    that is consumed exactly once, by the caller's accumulator v, is the same accumulator under another name: the
+    stores to a become stores to v (`v &= E`, `v = False`), the initialisation and the hand-over disappear.  Requires
+    that a is read nowhere else, `a = True` is its first store and stands in the same block as the hand-over, and v
+    does not occur between the two."""
+    changed = True
+    while changed:
+        changed = False
+        po = {}
+
+        def w(n):
+            po[id(n)] = len(po)
+            for c in ast.iter_child_nodes(n):
+                w(c)
+        w(fn)
+        for owner in ast.walk(fn):
+            for field in ('body', 'orelse', 'finalbody'):
+                blk = getattr(owner, field, None)
+                if not isinstance(blk, list) or not blk or not isinstance(blk[0], ast.stmt):
+                    continue
+                for j, c in enumerate(blk):
+                    kind = None
+                    if isinstance(c, ast.AugAssign) and isinstance(c.op, ast.BitAnd) and isinstance(c.target, ast.Name) and isinstance(c.value, ast.Name):
+                        kind, v, a = '&=', c.target.id, c.value.id
+                    elif isinstance(c, ast.Assign) and len(c.targets) == 1 and isinstance(c.targets[0], ast.Name) and isinstance(c.value, ast.Name):
+                        kind, v, a = '=', c.targets[0].id, c.value.id
+                    if kind is None or v == a or a in {x.arg for x in fn.args.args}:
+                        continue
+                    loads = [x for x in ast.walk(fn) if isinstance(x, ast.Name) and x.id == a and isinstance(x.ctx, ast.Load)]
+                    if len(loads) != 1:
+                        continue
+                    inits = [st for st in blk[:j] if isinstance(st, ast.Assign) and len(st.targets) == 1 and isinstance(st.targets[0], ast.Name)
+                             and st.targets[0].id == a and isinstance(st.value, ast.Constant) and st.value.value is True]
+                    if len(inits) != 1:
+                        continue
+                    init = inits[0]
+                    stores = []
+                    ok = True
+                    for st in ast.walk(fn):
+                        if isinstance(st, ast.Assign) and any(isinstance(t, ast.Name) and t.id == a for t in st.targets):
+                            if len(st.targets) != 1 or not isinstance(st.value, ast.Constant) or not isinstance(st.value.value, bool):
+                                ok = False
+                            stores.append(st)
+                        elif isinstance(st, ast.AugAssign) and isinstance(st.target, ast.Name) and st.target.id == a:
+                            if not isinstance(st.op, ast.BitAnd):
+                                ok = False
+                            stores.append(st)
+                        elif isinstance(st, (ast.For, ast.comprehension)) and any(isinstance(x, ast.Name) and x.id == a for x in ast.walk(st.target)):
+                            ok = False
+                    n_st = sum(1 for x in ast.walk(fn) if isinstance(x, ast.Name) and x.id == a and isinstance(x.ctx, (ast.Store, ast.Del)))
+                    if not ok or n_st != len(stores):
+                        continue
+                    if any(po[id(st)] < po[id(init)] for st in stores) or any(st is not init and isinstance(st, ast.Assign) and st.value.value is True for st in stores):
+                        continue
+                    lo, hi = po[id(init)], po[id(c)]
+                    if any(isinstance(x, ast.Name) and x.id == v and lo < po[id(x)] < hi for x in ast.walk(fn)):
+                        continue
+                    if any(not (lo <= po[id(st)] < hi) for st in stores):
+                        continue
+                    for st in stores:
+                        if isinstance(st, ast.Assign):
+                            st.targets[0].id = v
+                        else:
+                            st.target.id = v
+                    if kind == '&=':
+                        blk.remove(init)
+                    blk.remove(c)
+                    if not blk:
+                        blk.append(ast.copy_location(ast.Pass(), c))
+                    stats['accumulators_merged'] = stats.get('accumulators_merged', 0) + 1
+                    changed = True
+                    break
+                if changed:
+                    break
+            if changed:
+                break
+    ast.fix_missing_locations(fn)
+
+
 # ---------------------------------------------------------------------------
 # driver
 # ---------------------------------------------------------------------------
@@ -1482,6 +1713,8 @@ def normalize_module(modname, tree, stats, pkg_dir=None):
             copy_propagate(f, ms, stats)
         except RecursionError:
             pass
+        thread_flags(f, stats)
+        merge_accumulators(f, stats)
     _Canon(stats).visit(tree)
     ast.fix_missing_locations(tree)
     return tree
